@@ -23,7 +23,7 @@ REDIRECTS = {
     "tpm2/RunCommand.c": ["-Dlongjmp=verif_longjmp"],
 }
 
-SAN_FLAGS = ["-g", "-O1", "-fsanitize=address,undefined", "-fno-sanitize=alignment", "-fno-sanitize-recover=undefined",
+SAN_FLAGS = ["-g", "-O1", "-fsanitize=address,undefined", "-fno-sanitize=alignment,bounds", "-fno-sanitize-recover=undefined",
              "-fno-omit-frame-pointer", "-fno-common"]
 PLAIN_FLAGS = ["-g", "-O1", "-fno-common"]
 
